@@ -55,7 +55,7 @@ from specs import sampler_spec as sp
 ID = 'C17'
 LEVEL = 'exploration'
 P_TARGETS = []
-BUDGET = {'quick': 34.0, 'thorough': 420.0}
+BUDGET = {'quick': 34.0, 'thorough': 390.0}
 CHUNK = 100
 N_RANDOM = {'quick': 3000, 'thorough': 150000}
 XPROC = {'quick': (4, 15), 'thorough': (40, 40)}      # (batches, configurations per batch)
@@ -247,7 +247,7 @@ def check_one(cfg):
                                  classify(cfg, 'not-reproducible')))
     # third history: all table keys spelled with their order digit
     full = _explicit(cfg)
-    if full is not None and mol is not None:
+    if full is not None and mol is not None and not fails:      # only when the configuration is reproducible at all
         sampler3, mol3, exc3 = _history(full)
         if mol3 is None or canonical_dump(mol3) != canonical_dump(mol):
             fails.append(Failure('MoleculeSampler.sample', 'order-suffix-spelling',
